@@ -32,7 +32,7 @@ ASSUMPTIONS = ["UB on inputs that were not generated stays invisible; under Miri
 
 PROFILE = S.profile(renames=0.3, dups=0.05, attrs=0.05, sizes=[("small", 80), ("medium", 10), ("large", 7), ("full8", 3)],
                     anchors=["min", "max", "zero", "neg", "rand", "narrow_max", "narrow_min"])
-MIRI_PROFILE = S.profile(renames=0.3, dups=0.05, attrs=0.0, sizes=[("small", 100)], cfg_off=0.0,
+MIRI_PROFILE = S.profile(renames=0.3, dups=0.05, attrs=0.0, sizes=[("small", 100)], cfg_off=0.0, pad_names=0.0,
                          anchors=["min", "max", "zero", "neg", "rand"], shapes=["gapless", "holes", "holes", "many"])
 
 
@@ -59,6 +59,8 @@ def fixed_cases(tier):
     specs = C.run_length_specs({(1, 64), (64, 64), (65, 64), (63, 65), (128, 128), (129, 63), (256, 63), (257, 65)}) + C.run_count_specs([64, 65, 128, 129, 256, 257])
     for spec in C.zero_first_specs():
         out.append({"spec": spec, "cfg": S.simple_config(allf, {"iter": "table", "as_str": "table", "from_str": "table", "FromStr": "table"}), "seed": 14})
+    for spec in C.structured_specs(("i8", "u8", "i64")):
+        out.append({"spec": spec, "cfg": S.simple_config(allf), "seed": 15})
     for spec in C.block_specs():
         out.append({"spec": spec, "cfg": S.simple_config(["try_from", "TryFrom", "MIN", "MAX", "next", "next_back", "iter", "range"]), "seed": 13})
     for spec in specs:
